@@ -42,6 +42,13 @@ def _job(job):
         problems2, st2 = _tomoprop.stabilizer_measurement(N, conn, mq, R, adj, ph, pr, with_density=(N <= 4), variant=variant)
         stats["pairs"] += st2.get("pairs", 0)
         ctx.prove("stabilizer measurement on the ordered list %s of a %d-qubit register: %s" % (mq, N, problems2[:1]), 0 if problems2 else 1, info=dict(mq=mq, which="stabilizer", R=R, S=adj, phases=ph, variant=variant))
+        # a Z-only stabilizer (empty readout circuit) on the same list
+        phz = [rnd.randrange(2) for _ in range(m)]
+        Zero = [[0] * m for _ in range(m)]
+        problems3, st3 = _tomoprop.stabilizer_measurement(N, conn, mq, Zero, R, phz, pr, with_density=False, variant=variant)
+        stats["pairs"] += st3.get("pairs", 0)
+        ctx.prove("stabilizer measurement of a Z-only stabilizer on the ordered list %s of a %d-qubit register: %s" % (mq, N, problems3[:1]), 0 if problems3 else 1,
+                  info=dict(mq=mq, which="stabilizer", R=Zero, S=R, phases=phz, variant=variant))
         return {"mq": mq}
     res = explore(fn)
     for v in res.violations[:3]:
